@@ -441,7 +441,7 @@ impl CaseSpace for Repeated {
 
 struct Replies;
 
-const REPLY_VARIANTS: usize = 7; // ideal, unexpected objects, IIN2 error, NEED_TIME in final reply, empty where an object is expected, two delay objects in one header, a second delay header
+const REPLY_VARIANTS: usize = 8; // (the eighth: the coarse delay object g52v1 in place of g52v2) ideal, unexpected objects, IIN2 error, NEED_TIME in final reply, empty where an object is expected, two delay objects in one header, a second delay header
 
 impl CaseSpace for Replies {
     fn name(&self) -> String {
@@ -506,10 +506,18 @@ impl CaseSpace for Replies {
                             applied = true;
                         }
                     }
-                    _ => {
+                    6 => {
                         // the delay object twice, in two headers
                         if req[1] == fc::DELAY_MEASURE {
                             r.extend_from_slice(&[52, 2, 0x07, 1, 0, 0]);
+                            applied = true;
+                        }
+                    }
+                    _ => {
+                        // the *coarse* delay object (seconds) where the fine one (milliseconds) is required
+                        if req[1] == fc::DELAY_MEASURE {
+                            r.truncate(4);
+                            r.extend_from_slice(&[52, 1, 0x07, 1, 1, 0]);
                             applied = true;
                         }
                     }
@@ -537,7 +545,7 @@ impl CaseSpace for Replies {
         }
         let ok = done[0].starts_with("Ok");
         if applied && ok {
-            let what = ["ideal", "unexpected-objects", "iin2-error", "need-time-still-set", "missing-delay-object", "two-delay-objects-in-one-header", "two-delay-headers"][variant];
+            let what = ["ideal", "unexpected-objects", "iin2-error", "need-time-still-set", "missing-delay-object", "two-delay-objects-in-one-header", "two-delay-headers", "coarse-delay-object"][variant];
             res.violation = Some(Violation::new("C18.F2", format!("success-reported-although-{what}:{proc_:?}"), done[0].clone()));
         } else if !applied && !ok {
             res.violation = Some(Violation::new("C18.L1", format!("failure-in-ideal-conditions:{proc_:?}"), done[0].clone()));
